@@ -15,7 +15,10 @@ META = {
     "autoescape on and off, on data whose values contain every HTML metacharacter.  html.unescape(on) must equal off (a "
     "skipped escape or a double escape breaks it: a doubly escaped '<' unescapes once to '&lt;'); items whose data carry no "
     "metacharacter must render identically in both modes (template text such as '<a1>' must never be escaped).  Errors "
-    "must be of the same class in both modes.",
+    "must be of the same class in both modes.  A second family crosses every carrier of already-safe text (macro result, "
+    "caller(), block assignment, self.block(), recursive loop result, captured include, imported macro, namespace "
+    "attribute) with every escaping-neutral consumer (~ on either side, join with plain and tainted delimiters, default, "
+    "conditional expression, set, macro argument, loop.cycle, with, filter block, dict item) on tainted data.",
     "note": "Corpus bounds of vf/corpus.py; constructs are escaping-neutral (the only filter is `upper`, whose effect on "
     "character references html.unescape tolerates); the property excludes safe-marking and length/position-sensitive operations.",
     "design_ref": "DESIGN.md §4 C16",
@@ -54,6 +57,70 @@ def shard(arg):
     return p
 
 
+# ------------------------------------------------------------------ safe carriers x neutral consumers
+# Values that are already safe in autoescape mode (macro results, caller(), block assignments, self.block(),
+# super(), recursive loop results, included output captured in a set block) flowing through escaping-neutral
+# operations together with tainted data: still escaped exactly once.
+
+CARRIERS = {
+    "macro": ("{% macro m(v) %}<b>{{ v }}</b>{% endmacro %}", "m(x)"),
+    "macro_const": ("{% macro m(v) %}<i>{{ v }}</i>{% endmacro %}", "m('k')"),
+    "setblock": ("{% set sv %}[{{ x }}]{% endset %}", "sv"),
+    "setblock_filter": ("{% set sv | trim %} [{{ x }}] {% endset %}", "sv"),
+    "caller": ("{% macro w() %}({{ caller() }}){% endmacro %}{% set sv %}{% call w() %}{{ x }}{% endcall %}{% endset %}", "sv"),
+    "selfblock": ("{% block blk %}<u>{{ x }}</u>{% endblock %}", "self.blk()"),
+    "recursive": ("{% set sv %}{% for n in tree recursive %}{{ n.t }}{% if n.c %}<{{ loop(n.c) }}>{% endif %}{% endfor %}{% endset %}", "sv"),
+    "include": ("{% set sv %}{% include 'inc' %}{% endset %}", "sv"),
+    "imported": ("{% from 'lib' import lm %}", "lm(x)"),
+    "joiner_ns": ("{% set ns = namespace(v='') %}{% set ns.v %}{{ x }}{% endset %}", "ns.v"),
+}
+CONSUMERS = [
+    "{{ C }}", "{{ C ~ y }}", "{{ y ~ C }}", "{{ C ~ C }}", "{{ C ~ 'k' ~ y }}", "{{ [C, y]|join(',') }}", "{{ [C, y]|join(y) }}",
+    "{{ [y, C]|join }}", "{{ C|default(y) }}", "{{ undefined_name|default(C) }}", "{{ C if y else y }}", "{{ (C, y)|first }}",
+    "{{ [C]|last }}", "{% set z = C ~ y %}{{ z }}", "{% set z = C %}{{ z ~ y }}", "{% macro o(a) %}{{ a }}|{{ a ~ y }}{% endmacro %}{{ o(C) }}",
+    "{% for q in [C, y] %}{{ q }}{{ loop.cycle(C, y) }}{% endfor %}", "{% with z = C %}{{ z }}{{ y }}{% endwith %}",
+    "{% filter trim %} {{ C }}{{ y }} {% endfilter %}", "{% if C %}{{ C }}{% endif %}", "{{ {'k': C}.k ~ y }}", "{{ C|string ~ y }}",
+    "{{ C|trim ~ y }}", "{{ [C, C]|join(y)|trim }}", "{{ cyc.next() ~ y }}",
+]
+
+
+class TNode:
+    def __init__(self, t, c=()):
+        self.t, self.c = t, list(c)
+
+
+def family_shard(arg):
+    import jinja2
+
+    cname = arg
+    prelude, cexpr = CARRIERS[cname]
+    p = core.Part()
+    loader_map = {"inc": "I{{ x }}<inc>", "lib": "{% macro lm(v) %}<l>{{ v }}</l>{% endmacro %}",
+                  "base": "B[{% block blk %}b{{ x }}{% endblock %}]"}
+    for cons in CONSUMERS:
+        src = prelude + cons.replace("C", cexpr)
+        outs = {}
+        for ae in (False, True):
+            env = jinja2.Environment(loader=jinja2.DictLoader(dict(loader_map)), autoescape=ae)
+            data = {"x": TAINT, "y": "y" + TAINT, "tree": [TNode(TAINT, [TNode("a" + TAINT)]), TNode("b")],
+                    "cyc": jinja2.utils.Cycler(TAINT, "k")}
+            outs[ae] = corpus.outcome(lambda: env.from_string(src).render(**data))
+        p.evals += 1
+        off, on = outs[False], outs[True]
+        ok = (off == on) if (isinstance(off, tuple) or isinstance(on, tuple)) else (html.unescape(on) == off)
+        p.sig(("fam", cname, CONSUMERS.index(cons), isinstance(off, tuple)))
+        if not ok:
+            p.violation(f"C16/double-or-missing-escape/carrier-{cname}", {
+                "msg": f"{src!r}: autoescape off -> {off!r}; on -> {on!r}; unescaped once -> {html.unescape(on) if isinstance(on, str) else on!r}",
+                "script": "print(%r)\n" % src})
+    p.sample({"carrier": cname, "consumers": len(CONSUMERS)}, cap=1)
+    return p
+
+
+def dispatch(arg):
+    return family_shard(arg[1]) if arg[0] == "f" else shard(arg[1])
+
+
 def run(ctx: core.Ctx):
     core.import_all_jinja()
     ctx.rule = ("every corpus item x autoescape on/off; distinct = distinct (corpus kind, output carries metacharacters, error?, "
@@ -61,5 +128,5 @@ def run(ctx: core.Ctx):
     ctx.assumptions += ["html.unescape maps the upper-cased references produced by the `upper` filter block (&LT; &AMP; &#34;) back",
                         "template text contains '<' and '>' but no '&', so unescaping the autoescaped output cannot alter template text"]
     n = 64
-    ctx.pmap(shard, [(ctx.tier, k, n) for k in range(n)])
+    ctx.pmap(dispatch, [("c", (ctx.tier, k, n)) for k in range(n)] + [("f", c) for c in CARRIERS])
     ctx.cov["bounds"] = {"corpus": str(corpus.BOUNDS[ctx.tier])}
